@@ -295,6 +295,10 @@ def _check(case):
         sv = _spec_for_variant(spec, v, over)
         lv = {nm: pick(levels, nm, v) for nm in names}
         ch = {nm: pick(changes, nm, v) for nm in names}
+        if endogenized is not None and not (abs(over.get(endogenized) or 0.0) < 1e6):
+            # an exponent of the order 1/eps: the swap has no solution (the base is 1) and the solver amplified the last
+            # bit of a level; the equations then hold or fail depending on the order of floating-point operations
+            return {"labels": ["degenerate_endogenized_parameter"], "nontrivial": False}
         if any(x is None or math.isnan(x) for x in lv.values()):
             col.fail("steady:missing_level", f"variant {v}: {lv}\n{lm.source(sv)}")
             continue
